@@ -579,7 +579,7 @@ def evaluate(run, st, tag, verdict_limit):
             nm = f"G{fi}_{gi}"
             vc = verdict_cases(rng, g, recs_of.get(id(g), []), verdict_limit)
             vc_of[id(g)] = vc
-            text += emit_group(g, nm, vc, STRICT_KINDS)
+            text += emit_group(g, nm, vc, STRICT_KINDS or getattr(g, 'strict_kinds', False))
             names.append(nm)
         for nm in names:
             text += f"Eval vm_compute in {nm}.bad.\nEval vm_compute in {nm}.bad_verdict.\n"
@@ -626,6 +626,7 @@ def correspond(run: lib.Run):
             "observed_raise": raised, "observed_ok": ncases - raised, "input_tags": st["tags"], "root_kinds": rootkinds,
             "rule": "Coq evaluates Core.unm / Core.mar on the runtime tables; a case is non-trivial when distinct by "
                     "(module, direction, root, encoded input)"}
+    dist.update(coreprop.hash_order_dist(groups))      # the hash-order stratum of coreprop.generate
     run.record_corr("core-unm-mar", ncases, [g.cases[i][4] for g, i in bad], distinct, dist)
     _STATE["mismatch"] = [(g, i) for g, i in bad]
     if groups and groups[0].cases:
